@@ -16,7 +16,8 @@ import os, re, hashlib, subprocess
 VARIANT_TY = {"UTF8String": "TUtf8", "OctetString": "TOctets", "Integer32": "TI32", "Integer64": "TI64", "Unsigned32": "TU32", "Unsigned64": "TU64",
               "Enumerated": "TEnum", "Grouped": "TGrouped", "Identity": "TIdentity", "DiameterURI": "TUri", "Time": "TTime", "Address": "TAddress",
               "AddressIPv4": "TIPv4", "AddressIPv6": "TIPv6", "Float32": "TF32", "Float64": "TF64", "Unknown": "TUnknown"}
-WHICH = {"C15": ["type_names"], "C14": ["type_names"], "C03": ["cmds", "apps"], "C04": ["cmds", "apps"], "C07": ["max_frame", "header_length"],
+WHICH = {"C15": ["type_names"], "C14": ["type_names"], "C03": ["cmds", "apps", "avp_flags"], "C04": ["cmds", "apps", "nesting"],
+         "C01": ["avp_flags", "header_length"], "C02": ["avp_flags", "header_length"], "C07": ["max_frame", "header_length"],
          "C06": ["max_frame", "header_length"], "C17": ["rfc868_offset"]}
 
 
@@ -82,6 +83,15 @@ def extract(repo):
                 f[key] = vals
     m = re.search(r"pub\s+const\s+HEADER_LENGTH\s*:\s*\w+\s*=\s*([^;]+);", s)
     f["header_length"] = _const_expr(m.group(1)) if m else None
+    a = _strip_comments(_read(repo, "src/avp/mod.rs"))
+    fl = {}
+    m = re.search(r"pub\s+mod\s+flags\s*\{(.*?)\}", a, flags=re.S)
+    if m:
+        for n, e in re.findall(r"pub\s+const\s+(\w+)\s*:\s*u8\s*=\s*([^;]+);", m.group(1)):
+            fl[n] = _const_expr(e)
+    f["avp_flags"] = (fl["V"], fl["M"], fl["P"]) if set(fl) == {"V", "M", "P"} and None not in fl.values() else None
+    m = re.search(r"const\s+MAX_GROUPED_NESTING\s*:\s*\w+\s*=\s*([^;]+);", a)
+    f["nesting"] = _const_expr(m.group(1)) if m else None
     t = _strip_comments(_read(repo, "src/avp/time.rs"))
     m = re.search(r"const\s+RFC868_OFFSET\s*:\s*\w+\s*=\s*([^;]+);", t)
     f["rfc868_offset"] = _const_expr(m.group(1)) if m else None
@@ -139,6 +149,17 @@ def coq_text(pid, facts):
         elif item == "header_length":
             out.append(f"Definition src_header_length : N := {v}%N.")
             out.append("Theorem source_header_length_is_20 : src_header_length = 20%N /\\ m_len (msg_new 0 0 0 0 0) = src_header_length.\nProof. split; reflexivity. Qed.")
+        elif item == "avp_flags":
+            out.append("Definition src_flag_V : N := %d%%N. Definition src_flag_M : N := %d%%N. Definition src_flag_P : N := %d%%N." % v)
+            out.append("(* the three constants are the three bits the model's encoder sets and its decoder tests *)\n"
+                       "Theorem source_avp_flags_are_the_models :\n"
+                       "  flags_byte true false false = src_flag_V /\\ flags_byte false true false = src_flag_M /\\ flags_byte false false true = src_flag_P /\\\n"
+                       "  (forall v m p, flags_byte v m p = ((if v then src_flag_V else 0) + (if m then src_flag_M else 0) + (if p then src_flag_P else 0))%N).\n"
+                       "Proof. repeat split; intros; try reflexivity; destruct v, m, p; reflexivity. Qed.")
+        elif item == "nesting":
+            out.append(f"Definition src_max_nesting : N := {v}%N.")
+            out.append("(* the properties leave the limit open but ask for at least 16 levels; the correspondence runs use the measured limit *)\n"
+                       "Theorem source_nesting_limit_admits_16 : (16 <=? src_max_nesting)%N = true.\nProof. reflexivity. Qed.")
         elif item == "rfc868_offset":
             out.append(f"Definition src_rfc868_offset : Z := {v}%Z.")
             out.append("Theorem source_epoch_offset_is_the_models : src_rfc868_offset = rfc868_offset.\nProof. reflexivity. Qed.")
@@ -155,7 +176,7 @@ def check(pid, repo, coq_dir, cache_dir):
         return res
     os.makedirs(cache_dir, exist_ok=True)
     model_stamp = hashlib.sha256("".join(open(os.path.join(coq_dir, "theories", p)).read() for p in
-                                         ("Model/Leaf.v", "Model/Message.v", "Model/Dict.v", "Base/Bytes.v")).encode()).hexdigest()
+                                         ("Model/Leaf.v", "Model/Message.v", "Model/Dict.v", "Base/Bytes.v", "Spec/Wire.v")).encode()).hexdigest()
     h = hashlib.sha256((text + model_stamp).encode()).hexdigest()[:20]
     ok_stamp = os.path.join(cache_dir, f"{pid}-{h}.ok")
     if os.path.exists(ok_stamp):
